@@ -65,6 +65,110 @@ def scalar_arm(ctx, other: str):
     return None
 
 
+def _affine(e, var: str):
+    """'const' (no `var`), 'affine' (a*var + b with a, b free of var), 'no' (definitely not affine: a quotient by, or a product /
+    power of, expressions of var), None (a call or a construct this rule does not know)"""
+    has = any(isinstance(x, ast.Name) and x.id == var for x in ast.walk(e))
+    if not has:
+        return "const"
+    if isinstance(e, ast.Name):
+        return "affine"
+    if isinstance(e, ast.UnaryOp) and isinstance(e.op, (ast.USub, ast.UAdd)):
+        return _affine(e.operand, var)
+    if isinstance(e, ast.Call) and isinstance(e.func, ast.Name) and e.func.id in ("copy", "deepcopy") and len(e.args) == 1:
+        return _affine(e.args[0], var)
+    if isinstance(e, ast.BinOp):
+        a, b = _affine(e.left, var), _affine(e.right, var)
+        if "no" in (a, b):
+            return "no"
+        if isinstance(e.op, (ast.Add, ast.Sub)):
+            return None if None in (a, b) else "affine"
+        if isinstance(e.op, (ast.Mult, ast.MatMult)):
+            if a != "const" and b != "const":
+                return "no"
+            return None if None in (a, b) else "affine"
+        if isinstance(e.op, (ast.Div, ast.FloorDiv, ast.Mod)):
+            if b != "const":
+                return "no"
+            return None if a is None else "affine"
+        if isinstance(e.op, ast.Pow):
+            return "no" if not (isinstance(e.right, ast.Constant) and e.right.value == 1) else a
+    return None
+
+
+def affine_map(r: R, chk, quals, rule="AFFINE-MAP"):
+    """a result that keeps the basis of the operand (it starts as `copy(self)` and its weights are not set again) and replaces every
+    control point P_i by E(P_i) is the curve u -> E(C(u)) only for affine E: sum_i R_i(u) E(P_i) = E(sum_i R_i(u) P_i) needs
+    E(a x + b y) = a E(x) + b E(y) for a + b = 1.  `s / P_i`, `P_i * P_i`, `P_i ** 2` are not affine."""
+    n = 0
+    for q in quals:
+        ctx = r.root(q)
+        fi = ctx.fi
+        def is_copy_of_self(v):
+            return (isinstance(v, ast.Call) and isinstance(v.func, ast.Name) and v.func.id in ("copy", "deepcopy") and len(v.args) == 1 and isinstance(v.args[0], ast.Name) and v.args[0].id == "self") or \
+                   (isinstance(v, ast.Call) and isinstance(v.func, ast.Attribute) and v.func.attr in ("copy", "deepcopy", "__copy__", "__deepcopy__") and isinstance(v.func.value, ast.Name) and v.func.value.id == "self")
+
+        # statement lists, to look backwards from a store for the definition that reaches it
+        blocks = []
+        for x in ast.walk(fi.node):
+            for fld in ("body", "orelse", "finalbody"):
+                b = getattr(x, fld, None)
+                if isinstance(b, list) and b and isinstance(b[0], ast.stmt):
+                    blocks.append((x, b))
+
+        def kept_basis(store, name):
+            """True when the definition of `name` reaching `store` is copy(self) and neither weights nor knot vector of it are set in between"""
+            cur = store
+            while True:
+                owner = next(((x, b) for x, b in blocks if any(st is cur for st in b)), None)
+                if owner is None:
+                    return False
+                x, b = owner
+                for st in reversed(b[: next(k for k, st in enumerate(b) if st is cur)]):
+                    for y in ast.walk(st):
+                        if isinstance(y, ast.Assign):
+                            for t in y.targets:
+                                if isinstance(t, ast.Attribute) and t.attr in ("weights", "knotvector") and isinstance(t.value, ast.Name) and t.value.id == name:
+                                    return False
+                                if isinstance(t, ast.Name) and t.id == name:
+                                    return st is y and is_copy_of_self(y.value)
+                if x is fi.node:
+                    return False
+                cur = x
+
+        for a in ast.walk(fi.node):
+            if not (isinstance(a, ast.Assign) and len(a.targets) == 1):
+                continue
+            t = a.targets[0]
+            if not (isinstance(t, ast.Attribute) and t.attr == "ctrlpoints" and isinstance(t.value, ast.Name) and kept_basis(a, t.value.id)):
+                continue
+            copies = {t.value.id}
+            v = a.value
+            for _ in range(3):
+                if isinstance(v, ast.Name):
+                    ds = [x.value for x in ast.walk(fi.node) if isinstance(x, ast.Assign) and len(x.targets) == 1 and isinstance(x.targets[0], ast.Name) and x.targets[0].id == v.id]
+                    if len(ds) != 1:
+                        break
+                    v = ds[0]
+            while isinstance(v, ast.Call) and isinstance(v.func, ast.Name) and v.func.id in ("tuple", "list") and len(v.args) == 1:
+                v = v.args[0]
+            if not (isinstance(v, (ast.ListComp, ast.GeneratorExp)) and len(v.generators) == 1 and isinstance(v.generators[0].target, ast.Name) and not v.generators[0].ifs):
+                continue
+            it = v.generators[0].iter
+            if not (isinstance(it, ast.Attribute) and it.attr == "ctrlpoints" and isinstance(it.value, ast.Name) and it.value.id in copies | {"self"}):
+                continue
+            var = v.generators[0].target.id
+            verdict = _affine(v.elt, var)
+            n += 1
+            ok = verdict != "no"
+            chk.ob(rule, f"{q}: `{seg(v.elt, 30)}` maps the control points of the kept basis affinely", ok, loc=r.loc(ctx, a),
+                   detail="" if ok else f"{q}: `{seg(a, 70)}` keeps the knot vector and the weights of the operand and replaces each control point `{var}` by `{seg(v.elt, 30)}`, which is not affine in `{var}`: sum_i R_i(u) * ({seg(v.elt, 30)}) is not the pointwise result at any u where more than one basis function is non-zero",
+                   func=q, construct=f"control points mapped by non-affine `{seg(v.elt, 30)}`")
+            if verdict is None:
+                chk.note(f"{rule}: {q}: `{seg(v.elt, 40)}` is not a form this rule knows: not decided")
+    chk.floor(rule, "control-point maps on a kept basis in the scalar operators", n, 7)
+
+
 def run(m, chk):
     r = R(m, chk)
     chk.explanation = (
@@ -73,7 +177,7 @@ def run(m, chk):
         "on every return site the returned curve depends on both operands, and on the weights of an operand unless the path established `weights is None` (DEP-MAY). "
         "Pointwise equality of the values and the correctness of the combined knot vector are not decided."
     )
-    chk.decides = ["PURE", "FRESH", "GATE(limits ⇒ ValueError)", "DELEGATE", "DEP-MAY per return site", 'POLY-ONLY (polynomial helpers only under weights is None)', 'INTERVAL', 'REFLECTED (x - A, M @ A, x / A are not A - x, A @ M, A / x)', 'ZIP-ALIGN (parallel lists are zipped with the same slice)']
+    chk.decides = ["AFFINE-MAP (a result on the operand's own basis maps the control points affinely)", "MEMO-KEY (no function on the path is memoised by the value of numbers / knot vectors)", "PURE", "FRESH", "GATE(limits ⇒ ValueError)", "DELEGATE", "DEP-MAY per return site", 'POLY-ONLY (polynomial helpers only under weights is None)', 'INTERVAL', 'REFLECTED (x - A, M @ A, x / A are not A - x, A @ M, A / x)', 'ZIP-ALIGN (parallel lists are zipped with the same slice)']
     chk.not_decided = ["(A op B)(u) = A(u) op B(u) as values", "correctness of the combined knot vector (fails for different degrees with interior knots — consequence of the | defect, DESIGN §5)"]
     for name in ALL:
         q = B + name
@@ -147,3 +251,8 @@ def run(m, chk):
                    detail="" if ok else f"{q}: the value returned at {r.loc(ctx, node.ast)} (`{seg(node.ast, 60)}`) does not depend on {r.fmt_deps(fi, missing)}: that operand is ignored on this path",
                    func=q, construct=f"`{seg(node.ast, 50)}` ignores {r.fmt_deps(fi, missing)}")
     chk.floor("DEP-MAY", "return sites of the arithmetic dunders", nsites, 18)
+    from .extra import memo_key
+
+    nm = memo_key(r, chk, entries=['curves.BaseCurve.__add__', 'curves.BaseCurve.__sub__', 'curves.BaseCurve.__mul__', 'curves.BaseCurve.__matmul__', 'curves.BaseCurve.__truediv__', 'curves.BaseCurve.__rtruediv__', 'curves.BaseCurve.__rmatmul__', 'curves.BaseCurve.__rmul__', 'curves.BaseCurve.__radd__', 'curves.BaseCurve.__rsub__', 'curves.BaseCurve.__neg__'])
+    chk.floor("MEMO-KEY", "functions reachable from the entry points examined for value-keyed memoisation", nm, 3)
+    affine_map(r, chk, [B + name for name in ALL])
